@@ -258,6 +258,13 @@ def python_source(s: dg.DScn):
     if s.model_methods:
         out.append("class Model:  # M(Model())")
         out += [f"    def {m}(self): ..." for m in s.model_methods]
+    if getattr(s, "override", -1) >= 0:
+        out.append(f"# written (when that leaves the base class valid) as a base class without the outgoing transitions "
+                   f"of `{s.states[s.override].id}` plus a subclass that declares `{s.states[s.override].id} = State(...)` "
+                   f"again and those transitions from the new object (harness/diagram_impl.py build)")
+    if getattr(s, "placeholders", False):
+        out.append("# single events given through event= on transitions not assigned to an attribute are id-less "
+                   "`Event(name=...)` objects assigned to class attributes of their names")
     if s.subclass:
         out.append("class Sub(M): pass  # the diagrams are drawn for Sub")
     if s.fill is not None or s.pen is not None:
